@@ -21,7 +21,8 @@ RULE = ('programs built from identifier-only statement templates (assignments, c
         'id below N is observed. Oracle: identifier tokens of input and output aligned by position form an injective '
         'function; keywords/builtins/kept names (all names under keep-all) are unchanged; a changed name is a valid '
         'identifier that is not a keyword, builtin or kept name. Non-trivial = >= 2 renamed and >= 1 preserved '
-        'identifier; distinct by (source, keep-file, config).')
+        'identifier; distinct by (source, keep-file, config).'
+        ' Part "keepfiles" enumerates keep-file shapes (each notable name - incl. glyph names whose bytes equal Unicode byte-order marks - as first/only/last line x LF/CRLF x final newline x leading blank/comment line); keep files of generated populations are in arbitrary order; part "keepfile_history" rewrites ONE keep-file path in place between runs of one process (same length, timestamps restored; library and CLI) and requires every run to honour the file as it then is.')
 ASSUMPTIONS = ['PICO-8 API/callback names = picotool\'s PICO8_BUILTINS united with a frozen copy kept in this check '
                '(a name dropped from picotool\'s set is noticed; additions are allowed)',
                'lexical rules are represented by vlib/reflex.py']
